@@ -33,6 +33,15 @@ try:
 except ImportError:
     pass
 
+# cross-model theorems joining the wire model and the layout model (written by the coordinator)
+if "C06" in REGISTRY:
+    _e = dict(REGISTRY["C06"])
+    _e["module"] = list(_e["module"]) + ["Props.C06Layout"]
+    _e["level_text"] = _e["level_text"] + (" Joint theorem with C02: the length of every encoding is an element of the set denoted by the library's "
+                                            "bit_length_set expression for the corresponding layout type (C06.length_in_bit_length_set), and the wire model's "
+                                            "length predicate coincides with the Specification's length set (C06.length_set_is_layout_spec).")
+    REGISTRY["C06"] = _e
+
 # Only properties listed in harness/enabled.txt are claimed (groups still under construction stay out of MANIFEST.json).
 _enabled = {l.strip() for l in (Path(__file__).resolve().parent / "enabled.txt").read_text().split() if l.strip()}
 PENDING = {k: v for k, v in REGISTRY.items() if k not in _enabled}
